@@ -271,9 +271,9 @@ Hypothesis eqb_refl : forall a, f_eqb F a a = true.
 Hypothesis eqb_le : forall u v, f_eqb F u v = true -> f_ltb F v u = false.
 
 Lemma sg_upd_below : forall va vb md sa sb sx,
-  k_ltb K va (k_max K) = true -> k_ltb K vb (k_max K) = true -> k_ltb K md (k_max K) = true ->
-  k_ltb K (k_upd K va vb md sa sb sx) (k_max K) = true.
-Proof. intros va vb md sa sb sx Ha Hb _. cbn [kops_of k_upd k_ltb k_max] in *. cbn. destruct (f_ltb F va vb); assumption. Qed.
+  k_ltb K va (k_inf K) = true -> k_ltb K vb (k_inf K) = true -> k_ltb K md (k_inf K) = true ->
+  k_ltb K (k_upd K va vb md sa sb sx) (k_inf K) = true.
+Proof. intros va vb md sa sb sx Ha Hb _. cbn [kops_of k_upd k_ltb k_inf] in *. cbn. destruct (f_ltb F va vb); assumption. Qed.
 
 Lemma sg_rename : below_kind_of Single = BelowRename ->
   forall va vb md sa sb sx, (uses_sizes_ab Single = true -> 0 < sa /\ 0 < sb) ->
@@ -323,7 +323,7 @@ Proof.
 Qed.
 
 Theorem generic_single_cuts s d m n s' d' m' M0 :
-  Forall (fun v => f_ltb F v (f_max F) = true) m ->
+  Forall (fun v => f_ltb F v (f_inf F) = true) m ->
   generic_with K p Single s d m n = Ok (s', d', m') ->
   prologue p m n = Ok M0 ->
   1 <= m_obs M0 ->
@@ -340,14 +340,14 @@ Proof.
   destruct (prologue_wf _ _ _ HM0) as [Hwf Hdata].
   assert (EM : M0 = {| m_data := square_all K m; m_obs := n0 |}) by (rewrite sq_single; destruct M0; cbn in *; subst; reflexivity).
   assert (Hlen : length (square_all K m) = n0 * (n0 - 1) / 2) by (rewrite sq_single; unfold wf_mat in Hwf; rewrite <- Hdata; exact Hwf).
-  assert (Hall' : Forall (fun v => k_ltb K v (k_max K) = true) (square_all K m)) by (rewrite sq_single; exact Hall).
+  assert (Hall' : Forall (fun v => k_ltb K v (k_inf K) = true) (square_all K m)) by (rewrite sq_single; exact Hall).
   destruct (@generic_init T K p ltb_irrefl ltb_trans s d m n0 Hz Hlen Hall') as (s1 & Hinit & HG0).
   pose proof (@generic_init_lb T K p ltb_irrefl ltb_trans s d m n0 Hz Hlen Hall' s1 Hinit) as HLB0.
   cbn zeta in Hinit, HG0, HLB0. rewrite <- EM in Hinit, HG0, HLB0.
   destruct (mfold (init_row K p M0) (seq 0 (n0 - 1))
-              (h_prio (h_heapify_pre (k_max K) (st_queue (st_reset K s n0))), st_nearest (st_reset K s n0)))
+              (h_prio (h_heapify_pre (k_inf K) (st_queue (st_reset K s n0))), st_nearest (st_reset K s n0)))
     as [[dists nearest]| |]; cbn [bind] in Hinit, H; try discriminate.
-  destruct (h_heapify_post (k_ltb K) (h_heapify_pre (k_max K) (st_queue (st_reset K s n0))) dists) as [q1| |];
+  destruct (h_heapify_post (k_ltb K) (h_heapify_pre (k_inf K) (st_queue (st_reset K s n0))) dists) as [q1| |];
     cbn [bind] in Hinit, H; try discriminate.
   inversion Hinit as [Es1]. rewrite Es1 in H.
   assert (HW0 : LWInv (is_min_over ltb (cell_or (f_inf F) M0)) s1 M0 (seq 0 n0) Leaf).
@@ -417,7 +417,7 @@ Proof.
 Qed.
 
 Theorem generic_single_cuts_all (eqb_refl : forall a, f_eqb F a a = true) s d m n s' d' m' M0 :
-  Forall (fun v => f_ltb F v (f_max F) = true) m ->
+  Forall (fun v => f_ltb F v (f_inf F) = true) m ->
   generic_with K p Single s d m n = Ok (s', d', m') -> prologue p m n = Ok M0 -> 1 <= m_obs M0 ->
   forall t : T, exists j, j <= m_obs M0 - 1 /\ cut_at K t j (heights d')
     /\ forall x y, x < m_obs M0 -> y < m_obs M0 ->
